@@ -253,6 +253,7 @@ def pool():
         ('%%c\n%s' % a, {}, 'insert'),
         ('\\%s{%s}{%s}' % (y, a, a), {}, 'args.pop'),
         ('%s' % a, {}, 'insert'),
+        ('\\%s{%s}' % (y, b), {}, 'append+mutate'),
         ('$\\infty$', {}, 'args.append'),
         ('\\noindent %s\\cup' % a, {}, 'args.append'),
         ('%s\r\n\\%s\r\n{%s}' % (a, x, b), {}, 'rename'),
@@ -272,6 +273,9 @@ def do_edit(soup, edit):
             first.name = 'renamed'
         elif edit == 'args.append':
             first.args.append('{n}')
+        elif edit == 'append+mutate':
+            first.args.append('{n}')
+            first.args[-1].string = 'Q'
         elif edit == 'args.reverse':
             first.args.reverse()
         elif edit == 'args.pop':
